@@ -5,6 +5,7 @@ from .. import obs as O
 from ..monitor import StepBudgetExceeded
 from .common import Contract, ansi_values, history, run_cases, tier_sizes, is_ansi, FLAG_COMBOS
 from .c08 import Snap
+from .c05 import self_insertion, seam_workshop
 
 PROP = 'C09'
 STEP_BUDGET = 20000000
@@ -21,7 +22,7 @@ RULE = ('case = every outermost public call of a hostile random history (documen
 ASSUMPTIONS = ['termination is restated as bounded progress: <= 2*10^7 executed library lines per call when receiver '
                'and arguments are <= 64 characters (longer inputs exceeding the budget are grey)', 'invalid regular expressions are grey (re.error is not judged)']
 MIN_EVAL = 500
-CASES = {'quick': 50, 'thorough': 1100}
+CASES = {'quick': 200, 'thorough': 1650}
 WEIGHTS = {'replace': 4, 'split': 3, 'pad': 4, 'format': 3, 'to_str': 1.5, 'new_ansi': 2.5, 'set_ansi_str': 1,
            'simplify': 1.5, 'assign_str': 2, 'iadd': 5, 'add': 5, 'remove': 6, 'format_matching': 2,
            'unformat_matching': 2, 'match_apply': 0.6, 'iter': 0.8, 'eq': 0.6, 'contains': 0.6}
@@ -261,6 +262,9 @@ def drive(ctx, mon, tier, only_case=None):
                 hostile_args(rng, ex, L, hg)
                 if rng.random() < 0.5:
                     ex.run(hg.step())
+            if rng.random() < 0.5:
+                self_insertion(ctx, mon, rng, L)
+                seam_workshop(ctx, mon, rng, L)
         except StepBudgetExceeded:
             ctx.aborted['step-budget'] += 1
         if len(ex.pool) >= 2:
